@@ -55,7 +55,9 @@ def path_of(e, aliases=None):
 
 def collect_aliases(fn):
     """local id -> member path, for `auto& inv = loc.invariant;` style declarations (and structured bindings
-    are left alone)."""
+    are left alone).  Read on the normalised function, so that aliases declared in a part that was split off into a
+    lambda or a single-use member (`auto& inv = loc.invariant;` in checkInvariant(loc)) are known too."""
+    fn = normalized(fn)
     al = {}
 
     def pair_source(e):
@@ -250,6 +252,12 @@ def _exit_allowed(ifnode, aliases):
     if has_error_report(ifnode["then"]) and (ifnode.get("else") is None or not has_exit(ifnode["else"])):
         return True
     c = ifnode["c"]
+    while c.get("k") in ("paren",):
+        c = c["e"]
+    if c.get("k") == "bin" and c.get("op") == "||":
+        # `if (inv.empty() || !checkExpression(inv)) return;`: harmless if each reason alone is
+        return all(_exit_allowed({"c": part, "then": ifnode["then"], "else": ifnode.get("else")}, aliases)
+                   for part in (c["lhs"], c["rhs"]))
     neg = False
     while c.get("k") == "un" and c.get("op") == "!":
         c = c["e"]
